@@ -13,7 +13,7 @@ PLAN = {
 }
 BUDGET = {"quick": 50, "thorough": 900}
 RULE = (
-    "one consumer (optionally topic-filtered) drains a queue while one producer enqueues distinguishable immediate messages: "
+    "one consumer (no filter, one topic or two topics) drains a queue while one producer enqueues distinguishable immediate messages: "
     "queue lengths 1-40 (shorter and longer than the Redis fetch window of 10; window knob 2-3 in part of the runs), 1-3 "
     "priorities, foreign-topic messages mixed in, messages deferred until an instant already past (ordinary FIFO members), producer either finished before the consumer starts or keeping the backlog "
     "non-empty, some messages rejected and consumed again; in a third of the in-memory/Redis runs another task pauses and "
@@ -34,7 +34,7 @@ def gen(rng, broker, tier):
     prios = rng.choice([[5], [5], [5], [0, 5, 9]])
     msgs = []
     for i in range(n):
-        m = {"id": f"m{i}", "topic": "t1" if rng.random() < 0.8 else "tx", "prio": rng.choice(prios),
+        m = {"id": f"m{i}", "topic": rng.choice(["t1", "t1", "t1", "t2", "t2", "tx"]), "prio": rng.choice(prios),
              "gap_us": rng.choice([0, 0, 0, 300, 5000, 60_000]), "reject": rng.random() < 0.12}
         if m["reject"]:
             m["pause_us"] = rng.choice([0, 0, 2000, 30_000, 200_000])
@@ -57,7 +57,7 @@ def gen(rng, broker, tier):
         # dimension is asserted where the current code keeps the order (in-memory, Redis) and not claimed for RabbitMQ.
         pauses = [{"at_us": rng.choice([0, 500, 20_000, rng.randint(0, 400_000)]), "dur_us": rng.choice([500, 5000, 150_000])}
                   for _ in range(rng.randint(1, 3))]
-    return {"msgs": msgs, "pauses": pauses, "topics": rng.choice([None, ["t1"], ["t1"]]),
+    return {"msgs": msgs, "pauses": pauses, "topics": rng.choice([None, ["t1"], ["t1", "t2"], ["t2", "t1"]]),
             "consumer_start_us": rng.choice([0, 0, 1000, 100_000, 10_000_000]),
             "think_us": rng.choice([0, 0, 500, 20_000]),
             "knobs": {"step_cost": rng.choice([0, 0, 1, "rand"]),
